@@ -261,3 +261,26 @@ def lookahead_machines():
                         if p and p not in out:
                             out.append(p)
     return out
+
+
+def eraser_compositions(maxn=150):
+    """2-colour named machines with a halt slot, the halt replaced by a jump into a three-state ERASER that eats the
+    block of 1s next to the head from its far end, one cell per round trip (both orientations).  On these machines the
+    prover meets tapes with ONE block on each side and rules with a single entry (a block eaten from the blank edge
+    while the other side stays fixed) - the shape the two-block sweep filter of try_rule is about
+    (after seeded change C17-m4, which no tree leaf and no named machine shows)."""
+    out = []
+    for p in named_machines():
+        rows = [r.split(' ') for r in p.split('  ')]
+        if any(len(r) != 2 for r in rows) or not any(i == '...' for r in rows for i in r) or len(rows) > 6:
+            continue
+        n = len(rows)
+        E, F, G = STATES[n], STATES[n + 1], STATES[n + 2]
+        for mirror in (False, True):
+            a, b = ('L', 'R') if not mirror else ('R', 'L')
+            body = [[(f'1{b}{E}' if i == '...' else i) for i in r] for r in rows]
+            er = [[f'0{b}{F}', f'1{a}{E}'], [f'0{a}{G}', f'1{b}{F}'], ['...', f'0{a}{E}']]
+            out.append('  '.join(' '.join(r) for r in body + er))
+            if len(out) >= maxn:
+                return out
+    return out
